@@ -401,7 +401,39 @@ func atomsOf(cond ssa.Value, dir bool) []Atom {
 			return []Atom{{Kind: "le", X: strip(x.Y), Y: strip(x.X), Pos: dir}}
 		}
 	case *ssa.Call:
-		return []Atom{{Kind: "call", Call: x, Pos: dir}}
+		out := []Atom{{Kind: "call", Call: x, Pos: dir}}
+		// a predicate helper of the repository (straight-line body returning a condition): its
+		// condition holds too, with the helper's parameters replaced by the arguments
+		if h := staticCallee(x.Common()); h != nil && len(h.Blocks) == 1 && h.Pkg != nil && strings.HasPrefix(h.Pkg.Pkg.Path(), modPath) {
+			if ret, ok := h.Blocks[0].Instrs[len(h.Blocks[0].Instrs)-1].(*ssa.Return); ok && len(ret.Results) == 1 {
+				if _, isCall := ret.Results[0].(*ssa.Call); !isCall {
+					args := callArgs(x.Common())
+					sub := func(v ssa.Value) ssa.Value {
+						if par, ok := v.(*ssa.Parameter); ok {
+							for i, hp := range h.Params {
+								if hp == par && i < len(args) {
+									return strip(args[i])
+								}
+							}
+						}
+						return v
+					}
+					for _, a := range atomsOf(ret.Results[0], dir) {
+						if a.Kind == "val" {
+							continue
+						}
+						if a.X != nil {
+							a.X = sub(a.X)
+						}
+						if a.Y != nil {
+							a.Y = sub(a.Y)
+						}
+						out = append(out, a)
+					}
+				}
+			}
+		}
+		return out
 	case *ssa.Phi:
 		// a phi of booleans built by && / ||: if every edge is either the constant !dir-excluding
 		// value or a condition, we cannot conclude in general; handle the common "a && b" shape:
@@ -719,4 +751,9 @@ func isPlainCell(a *ssa.Alloc) bool {
 		}
 	}
 	return true
+}
+
+func isIntType(t types.Type) bool {
+	b, ok := t.Underlying().(*types.Basic)
+	return ok && b.Info()&types.IsInteger != 0
 }
